@@ -51,6 +51,13 @@ def data_shapes(quick):
         for N in Ns:
             for c in (combos if N in (3, 5) else combos[:2]):
                 out.append(dict(n=N, layout=c[0], err=c[1], unit=c[2], tref=c[3]))
+        # documented option t_ref=False (no reference epoch subtracted: phases relative to BMJD 0)
+        out.append(dict(n=3, layout="short", err="hetero", unit="km/s", tref="none"))
+        out.append(dict(n=5, layout="long", err="uniform", unit="m/s", tref="none"))
+        # raw input that needs the documented cleaning + sorting; several surveys handed over as a dict with unsorted insertion order
+        out.append(dict(n=5, layout="short", err="hetero", unit="km/s", tref=False, raw="dirty", container="dict"))
+        out.append(dict(n=3, layout="long", err="uniform", unit="m/s", tref=True, raw="dirty"))
+        out.append(dict(n=5, layout="short", err="uniform", unit="km/s", tref=True, container="dict"))
     else:
         for N in Ns:
             for layout in ("short", "long", "repeat"):
@@ -62,6 +69,13 @@ def data_shapes(quick):
                                     (2 * (unit == "m/s") + tref):
                                 continue
                             out.append(dict(n=N, layout=layout, err=err, unit=unit, tref=tref))
+        for N, layout, err, unit in ((1, "short", "uniform", "km/s"), (2, "long", "hetero", "m/s"), (3, "short", "hetero", "km/s"), (5, "long", "uniform", "m/s"),
+                                     (5, "repeat", "large", "km/s"), (8, "short", "hetero", "m/s")):
+            out.append(dict(n=N, layout=layout, err=err, unit=unit, tref="none"))
+        for N, layout, err, unit, tref, raw, cont in ((5, "short", "hetero", "km/s", False, "dirty", "dict"), (3, "long", "uniform", "m/s", True, "dirty", "list"),
+                                                     (5, "short", "uniform", "km/s", True, "clean", "dict"), (8, "long", "hetero", "m/s", False, "dirty", "dict"),
+                                                     (8, "repeat", "large", "km/s", True, "dirty", "list"), (2, "short", "tiny", "m/s", False, "dirty", "dict")):
+            out.append(dict(n=N, layout=layout, err=err, unit=unit, tref=tref, raw=raw, container=cont))
     return out
 
 
@@ -100,8 +114,8 @@ def run_config(cfg, shapes, quick, seed, part, full_grid_shapes=()):
     for si, sh in enumerate(shapes):
         if sh["n"] < cfg["n_offsets"] + 1:
             continue
-        t_ref = (pb.T0 - 3.25) if sh["tref"] and cfg["n_offsets"] == 0 else None
-        data, dd = pb.make_data(n=sh["n"], layout=sh["layout"], err=sh["err"], unit=sh["unit"], t_ref=t_ref, seed=seed,
+        t_ref = pb.shape_tref(sh, cfg["n_offsets"])
+        data, dd = pb.make_data(n=sh["n"], raw=sh.get("raw", "clean"), container=sh.get("container", "list"), layout=sh["layout"], err=sh["err"], unit=sh["unit"], t_ref=t_ref, seed=seed,
                                 n_surveys=cfg["n_offsets"] + 1, t_ref_scale=("utc" if sh["n"] % 2 else "tcb"), interleave=(not sh["tref"]), mixed_units=bool(sh["tref"]))
         problem = pb.ref_problem(dd, dec)
         sigbar = float(np.mean(dd["sig"]))
@@ -109,7 +123,7 @@ def run_config(cfg, shapes, quick, seed, part, full_grid_shapes=()):
         samples = pb.make_samples(theta)  # s column in km/s
         case0 = dict(kind="cell", cfg=cfg, shape=sh)
         outs = {}
-        dlist = data if isinstance(data, list) else [data]
+        dlist = list(data.values()) if isinstance(data, dict) else (data if isinstance(data, list) else [data])
         snap = [(np.array(d._t_bmjd).copy(), np.array(d.rv.value).copy(), np.array(d.rv_err.value).copy(), float(d._t_ref_bmjd)) for d in dlist]
         ssnap = {k: np.array(samples[k].value).copy() for k in samples.par_names}
         try:
@@ -182,8 +196,8 @@ def run_case(case, part):
 
     cfg, sh = case["cfg"], case["shape"]
     prior, dec = pb.make_prior(cache=False, **prior_kwargs(cfg))
-    t_ref = (pb.T0 - 3.25) if sh["tref"] and cfg["n_offsets"] == 0 else None
-    data, dd = pb.make_data(n=sh["n"], layout=sh["layout"], err=sh["err"], unit=sh["unit"], t_ref=t_ref, seed=case.get("seed", 0),
+    t_ref = pb.shape_tref(sh, cfg["n_offsets"])
+    data, dd = pb.make_data(n=sh["n"], raw=sh.get("raw", "clean"), container=sh.get("container", "list"), layout=sh["layout"], err=sh["err"], unit=sh["unit"], t_ref=t_ref, seed=case.get("seed", 0),
                             n_surveys=cfg["n_offsets"] + 1, t_ref_scale=("utc" if sh["n"] % 2 else "tcb"), interleave=(not sh["tref"]), mixed_units=bool(sh["tref"]))
     theta = np.atleast_2d(np.array(case["theta"], dtype=float))
     impl = np.array(tj.TheJoker(prior).marginal_ln_likelihood(data, pb.make_samples(theta), in_memory=True))
